@@ -108,11 +108,12 @@ func tupleize(v cty.Value) cty.Value {
 }
 
 type obs struct {
-	src  string
-	perr bool
-	err  bool
-	v    cty.Value
-	msg  string
+	reeval string
+	src    string
+	perr   bool
+	err    bool
+	v      cty.Value
+	msg    string
 }
 
 func evalSrc(src string, bare bool) (o obs) {
@@ -134,6 +135,12 @@ func evalSrc(src string, bare bool) (o obs) {
 	if vd.HasErrors() {
 		o.err = true
 		o.msg = vd.Error()
+	}
+	// evaluating must not change the syntax tree: a second evaluation of the
+	// same parsed expression gives the same outcome
+	v2, vd2 := expr.Value(ctx)
+	if vd2.HasErrors() != o.err || (!o.err && !v2.RawEquals(v)) {
+		o.reeval = fmt.Sprintf("first evaluation: err=%v %s; second evaluation of the same parsed expression: err=%v %s %s", o.err, vfmt.V(v), vd2.HasErrors(), vfmt.V(v2), vd2.Error())
 	}
 	return
 }
@@ -239,6 +246,10 @@ func judgeExpr(d Data, e *ex.E) engine.Outcome {
 		n++
 		if o.perr {
 			out := engine.Fail("c01."+kind+".parse-error", "valid %s expression does not parse:\n  source: %q\n  %s", d.Family, o.src, o.msg)
+			return &out
+		}
+		if o.reeval != "" {
+			out := engine.Fail("c01."+kind+".re-evaluation-differs", "evaluating the same parsed expression twice gives different outcomes:\n  source: %q\n  %s", o.src, o.reeval)
 			return &out
 		}
 		if first == nil {
